@@ -125,7 +125,7 @@ pub fn run(ctx: &Ctx) -> Report {
     rep.counters.add("sqlstate_snapshot_drift", drift);
 
     // ---- wire-level: every kind x reporting site
-    let sites = 10u64;
+    let sites = 12u64;
     let n = if ctx.miri { 4 } else { kinds.len() as u64 * sites };
     let kinds_ref = &kinds;
     let r = par_cases(ctx, "C13", "wire", n, |rng, i, rep| {
@@ -182,6 +182,12 @@ pub fn run(ctx: &Ctx) -> Report {
                 site_name = "init error via COM_INIT_DB";
                 cmds.push(Cmd::init_db(b"db"));
                 scripts.push(Script::InitErr(code, msg.clone()));
+            }
+            10 | 11 => {
+                let bin = site == 11;
+                site_name = if bin { "finish_error with an un-ended row (binary)" } else { "finish_error with an un-ended row (text)" };
+                cmds.push(if bin { Cmd::execute(1, &[], false) } else { Cmd::query(b"q") });
+                scripts.push(q(vec![QOp::Start(0), row(1), QOp::Col(Cell::val(V::I32(2))), QOp::FinishErr(code, msg.clone())]));
             }
             _ => {
                 site_name = "init error via USE";
